@@ -11,21 +11,21 @@ namespace EG.Driver
 open EG
 
 /-- `x,y,w,h` -/
-def parseRect4 (s : String) : Rect :=
+private def parseRect4 (s : String) : Rect :=
   match (s.splitOn ",") with
   | [x, y, w, h] => ⟨⟨parseInt x, parseInt y⟩, ⟨parseNat w, parseNat h⟩⟩
   | _ => Rect.zero
 
 /-- The colour conversion of the k-th colour-converted adapter counted from the root
 (`impl From<L(k+1)> for L(k)` in m_adapters.rs). -/
-def convFn (k : Nat) (c : Color) : Color := 3 * c + k + 1
+private def convFn (k : Nat) (c : Color) : Color := 3 * c + k + 1
 
 /-- Second chain (real colour types): `BinaryColor -> Rgb565` (Off -> 0, On -> 0xFFFF) for the
 root-most converted adapter, identity `BinaryColor -> BinaryColor` above it. -/
-def convFnB (k : Nat) (c : Color) : Color := if k = 0 then (if c % 2 = 1 then 65535 else 0) else c
+private def convFnB (k : Nat) (c : Color) : Color := if k = 0 then (if c % 2 = 1 then 65535 else 0) else c
 
 /-- adapter stack, root-most first; `v` adapters are numbered from the root -/
-def parseStack (convFn : Nat → Color → Color) (s : String) : Stack :=
+private def parseStack (convFn : Nat → Color → Color) (s : String) : Stack :=
   if s == "-" then [] else
   let rec go (parts : List String) (k : Nat) : Stack :=
     match parts with
@@ -40,12 +40,12 @@ def parseStack (convFn : Nat → Color → Color) (s : String) : Stack :=
       else Adapter.converted (convFn k) :: go rest (k + 1)
   go (s.splitOn "/") 0
 
-def parsePixel (s : String) : Pt × Color :=
+private def parsePixel (s : String) : Pt × Color :=
   match s.splitOn "," with
   | [x, y, c] => (⟨parseInt x, parseInt y⟩, parseNat c)
   | _ => (Pt.zero, 0)
 
-def parseCall (s : String) : Call :=
+private def parseCall (s : String) : Call :=
   if s.startsWith "di:" then
     let body := (s.drop 3).toString
     if body == "-" then Call.drawIter [] else Call.drawIter ((body.splitOn ";").map parsePixel)
@@ -59,19 +59,19 @@ def parseCall (s : String) : Call :=
     | _ => Call.clear 0
   else Call.clear (parseNat (s.drop 3).toString)
 
-def parseCalls (s : String) : List Call :=
+private def parseCalls (s : String) : List Call :=
   if s == "-" then [] else (s.splitOn "|").map parseCall
 
 /-- `Call::fmt` of common.rs -/
-def fmtCall : Call → String
+private def fmtCall : Call → String
   | .drawIter px => "di:" ++ fmtPix px
   | .fillContiguous a cs => s!"fc:{fmtRect a}:{fmtNats cs}"
   | .fillSolid a c => s!"fs:{fmtRect a}:{c}"
   | .clear c => s!"cl:{c}"
 
-def fmtLog (cs : List Call) : String := joinOr "|" (cs.map fmtCall)
+private def fmtLog (cs : List Call) : String := joinOr "|" (cs.map fmtCall)
 
-def runOp (conv : Nat → Color → Color) (t : Toks) : Option String :=
+private def runOp (conv : Nat → Color → Color) (t : Toks) : Option String :=
     let (B, t) := t.rect
     let (st, t) := t.str
     let (cl, _) := t.str
